@@ -453,6 +453,19 @@ def cmdResolve (args : List String) : String :=
   | [spec] => (match DDP.Resolve.select (parseCands spec) with | some c => s!"{c.len}.{c.gen}.{c.refs}" | none => "none")
   | _ => "bad-request"
 
+/-- `ledger <ptr,old,new,result;…>`: the model's verdict on a trace of ddp_reallocate calls -/
+def cmdLedger (args : List String) : String :=
+  match args with
+  | [spec] =>
+    let calls : List DDP.Ledger.Call := (spec.splitOn ";").filterMap fun c =>
+      match (c.splitOn ",").map String.toNat! with
+      | [p, o, n, r] => some ⟨p, o, n, r⟩
+      | _ => none
+    match DDP.Ledger.run [] calls 0 with
+    | (_, .ok l) => s!"ok {l.length}"
+    | (i, .error k) => s!"error {i} {k}"
+  | _ => "bad-request"
+
 def dispatch (line : String) : String :=
   match (line.splitOn " ").filter (· ≠ "") with
   | "scan" :: args => cmdScan args
@@ -477,6 +490,7 @@ def dispatch (line : String) : String :=
   | "modinit" :: args => cmdModinit args
   | "sortaliases" :: args => cmdSortAliases args
   | "resolve" :: args => cmdResolve args
+  | "ledger" :: args => cmdLedger args
   | _ => "bad-request"
 
 
